@@ -357,10 +357,10 @@ def jobs(tier):
     vals_all = list(VALUES)
     for h in hosts:
         for n in lens:
-            for v in (vals_q if tier == 'quick' and n > 4 else vals_all if tier != 'quick' else vals_q + ['arr3s', 'str']):
+            for v in (vals_all if tier != 'quick' or n <= 5 else vals_q + ['arr3s', 'str']):
                 out.append({'host': h, 'name': 'sym%d' % n, 'value': v})
         for nm in ('ns4:1', 'ns5:3') if tier == 'quick' else ('ns4:1', 'ns4:3', 'ns5:3', 'ns6:4', 'ns5:5'):
-            for v in ('expr', 'arr2', 'arrm') if tier == 'quick' else ('expr', 'arr1', 'arr2', 'arrm', 'arr3', 'none'):
+            for v in ('expr', 'arr1', 'arr2', 'arrm', 'arr3', 'arr3s', 'none') if tier == 'quick' else list(VALUES):
                 out.append({'host': h, 'name': nm, 'value': v})
         for nm in ('v-html', 'v-text', 'vHtml', 'vText', 'v-show', 'vShow'):
             for v in ('expr', 'arr1', 'str', 'call'):
